@@ -304,6 +304,34 @@ func runUploadLoop(c Case, res *lib.Result) {
 	res.Count(fmt.Sprintf("uploadloop:%d", c.Drops))
 }
 
+// every operation terminates, also after requests that were given up because their body could not be sent again (an upload
+// from a reader that cannot rewind whose first attempt met a fault): c.Drops such uploads, then plain requests must answer
+func runAfterAbandoned(c Case, res *lib.Result) {
+	t := newTopo(c)
+	seen := map[string]bool{}
+	t.hook = func(hi int, req *http.Request, n int) *http.Response {
+		if req.Method == "PUT" && strings.Contains(req.URL.Path, "/blobs/uploads/") && !seen[req.URL.Path] {
+			seen[req.URL.Path] = true
+			return memrt.Resp(500, nil, nil)
+		}
+		return nil
+	}
+	ctx, cancel := context.WithTimeout(context.Background(), 8*time.Second)
+	defer cancel()
+	r, _ := ref.New(hostNames[0] + "/repo:tag")
+	for i := 0; i < c.Drops; i++ {
+		nb := []byte(fmt.Sprintf("stream %d that cannot be read twice", i))
+		_, _ = t.rc.BlobPut(ctx, r, descriptor.Descriptor{Digest: digest.FromBytes(nb), Size: int64(len(nb))}, io.MultiReader(bytes.NewReader(nb)))
+	}
+	_, err := t.rc.ManifestHead(ctx, r)
+	if ctx.Err() != nil {
+		res.Fail("request-did-not-terminate after-abandoned-uploads", fmt.Sprintf("after %d uploads that were given up as not re-sendable a manifest head did not return within 8s: %v", c.Drops, err), c)
+	} else if err != nil {
+		res.Fail("transient-not-absorbed api=ManifestHead-after-abandoned-uploads", fmt.Sprintf("manifest head failed: %v", err), c)
+	}
+	res.Count(fmt.Sprintf("afterabandoned:%d", c.Drops))
+}
+
 // k transient faults (k < limit) at the only host, then normal service: the operation must succeed
 func runTransient(c Case, res *lib.Result) {
 	t := newTopo(c)
@@ -754,6 +782,8 @@ func runCaseRaw(c Case, res *lib.Result) string {
 		runOrder(c, res)
 	case "uploadloop":
 		runUploadLoop(c, res)
+	case "afterabandoned":
+		runAfterAbandoned(c, res)
 	case "resume":
 		runResume(c, res)
 	}
@@ -794,6 +824,9 @@ func Run(o lib.Opts) {
 	}
 	for _, st := range []int{400, 500, 404} {
 		all = append(all, Case{Kind: "uploadloop", Limit: 3, Drops: st})
+	}
+	for _, k := range []int{1, 3, 4} { // the default host throttle has three slots
+		all = append(all, Case{Kind: "afterabandoned", Limit: 4, Drops: k})
 	}
 	// the same with a mirror that serves (and truncates) the blob as well, and with truncated responses that ask for a pause:
 	// every re-request of the body counts against the one attempt budget of the logical request
